@@ -25,7 +25,7 @@ Lemma step_vi_tmadd_pos cfg s it s' (I : SvInv cfg s) (Hok : sitem_ok s it) (Hv 
 Proof.
   pose proof (vi_tmadd_pos _ _ I) as Hc.
   destruct Hv; unfold st_go; simpl; intros x t' sid0 n0 k0 z0 lt0 Ql Qo Qp; lk; simpl in *; try done; try (by eapply Hc).
-  all: try (try site_inv; subst; try destruct (sc_noclear _); congruence).
+  all: try (try site_inv; subst; try destruct (sc_noclear _); ds_next_cases; congruence).
   - destruct Qo as [-> | ->]; done.
   - destruct (connend_cancel_ok sid x0) as (Ho & Hp & _). rewrite Ho in Qo. rewrite Hp in Qp. by eapply Hc.
   - destruct (lt_pos lt) eqn:Hlt; [|done]. destruct Hop as [Hop|Hop], Qo as [Qo|Qo]; rewrite Hop in Qo; by simplify_eq.
